@@ -28,6 +28,8 @@ def run(prog, tier):
     helpers = collect_helpers(prog)
     check_dest_agree(R, prog, helpers)
     check_arg_role(R, prog, helpers)
+    check_optional_object(R, prog, helpers)
+    check_action_defaults(R, prog, helpers)
     R2 = Result(P, "")
     c08.check_class_thread(R2, prog)
     for o in R2.obligations:
@@ -288,3 +290,112 @@ def check_output_options(R, prog):
         mode = [s for s in stmts_in(cli.node) if isinstance(s, ast.If) and src(s.test) in ("mode == 'formula'",)]
         if mode and [src(x) for x in mode[0].body] == ["return %s" % var]:
             R.ok("OUTPUT-OPTIONS", "%s: mode='formula' returns the formula object itself" % mod.split(".")[-1], cli.key, nontrivial=False)
+
+
+# ---------------------------------------------------------------------------- optional objects / defaults of custom actions
+def _truth_tested(fnode, ap):
+    """attribute names X for which `args.X` is used as a truth value (if / while / and / or / not / conditional expression)"""
+    out = {}
+
+    def operands(t):
+        if isinstance(t, ast.BoolOp):
+            for v in t.values:
+                yield from operands(v)
+        elif isinstance(t, ast.UnaryOp) and isinstance(t.op, ast.Not):
+            yield from operands(t.operand)
+        else:
+            yield t
+    for n in walk_shallow(fnode):
+        tests = []
+        if isinstance(n, (ast.If, ast.While, ast.IfExp)):
+            tests.append(n.test)
+        elif isinstance(n, ast.Assert):
+            tests.append(n.test)
+        for t in tests:
+            for o in operands(t):
+                if isinstance(o, ast.Attribute) and isinstance(o.value, ast.Name) and o.value.id == ap:
+                    out.setdefault(o.attr, o)
+    return out
+
+
+def check_optional_object(R, prog, helpers):
+    """OPTIONAL-OBJECT: a destination filled by a graph-producing action holds an object whose truth value is its size (the graph
+    classes define __len__): `if args.G2:` is false for the graph without vertices.  Presence must be tested with `is None`."""
+    n = 0
+    for ci, setup, build in sorted(helpers, key=lambda h: h[0].name):
+        ap, _ = reads_of(build)
+        objs = {}
+        for c in [x for x in walk_shallow(setup.node) if isinstance(x, ast.Call) and method_name(x) == "add_argument"]:
+            act = kwarg(c, "action")
+            if act is None or isinstance(const(act), str):
+                continue
+            r = prog.resolve_expr(setup.module, act)
+            if isinstance(r, ClassInfo) and r.name.startswith("Obtain"):
+                d = dest_of(c)
+                if d:
+                    objs[d] = r.name
+        if not objs:
+            continue
+        tested = _truth_tested(build.node, ap)
+        for d, act in sorted(objs.items()):
+            n += 1
+            inst = "%s: args.%s (filled by %s)" % (ci.name, d, act)
+            if d in tested:
+                R.bad(F("OPTIONAL-OBJECT", build, "%s tests args.%s for truth" % (ci.name, d),
+                        "`%s.%s` holds a graph object (action %s); its truth value is its number of vertices, so the graph with no vertices "
+                        "counts as `not given` and another formula is built: test `is not None`" % (ap, d, act), tested[d]))
+            else:
+                R.ok("OPTIONAL-OBJECT", inst + " is never used as a truth value", build.key, nontrivial=False)
+    R.floor("OPTIONAL-OBJECT", n, 15)
+
+
+def check_action_defaults(R, prog, helpers):
+    """ACTION-DEFAULT: a custom action that fills several destinations from a variable number of words, and a builder that takes the
+    plain family when two of them are equal (`args.A == args.B`): in every branch of the action that has fewer words than destinations
+    the two are set from the same word, so the short form is the plain family."""
+    n = 0
+    for ci, setup, build in sorted(helpers, key=lambda h: h[0].name):
+        ap, _ = reads_of(build)
+        pairs = []
+        for t in walk_shallow(build.node):
+            if isinstance(t, ast.Compare) and len(t.ops) == 1 and isinstance(t.ops[0], ast.Eq):
+                a, b = t.left, t.comparators[0]
+                if all(isinstance(x, ast.Attribute) and isinstance(x.value, ast.Name) and x.value.id == ap for x in (a, b)):
+                    pairs.append((a.attr, b.attr))
+        if not pairs:
+            continue
+        for c in [x for x in walk_shallow(setup.node) if isinstance(x, ast.Call) and method_name(x) == "add_argument"]:
+            act = kwarg(c, "action")
+            r = prog.resolve_expr(setup.module, act) if act is not None and not isinstance(const(act), str) else None
+            call = prog.lookup_method(r, "__call__") if isinstance(r, ClassInfo) else None
+            if call is None:
+                continue
+            # branches = maximal statement lists made of setattr(args, 'X', expr)
+            def branches(stmts):
+                cur = {}
+                for st in stmts:
+                    if isinstance(st, ast.Expr) and isinstance(st.value, ast.Call) and call_name(st.value) == "setattr" and \
+                            len(st.value.args) == 3 and isinstance(const(st.value.args[1]), str):
+                        cur[const(st.value.args[1])] = st.value.args[2]
+                    elif isinstance(st, ast.If):
+                        yield from branches(st.body)
+                        yield from branches(st.orelse)
+                if cur:
+                    yield cur
+            for br in branches(call.node.body):
+                for a, b in pairs:
+                    if a in br and b in br:
+                        words = {src(v) for v in br.values() if isinstance(v, ast.Subscript)}
+                        bases = {src(v) for v in br.values()}
+                        if len(words) >= len(br):
+                            continue            # every destination has its own word
+                        n += 1
+                        inst = "%s: short form sets %s=%s, %s=%s" % (ci.name, a, src(br[a]), b, src(br[b]))
+                        if src(br[a]) == src(br[b]):
+                            R.ok("ACTION-DEFAULT", inst, call.key)
+                        else:
+                            R.bad(F("ACTION-DEFAULT", call, "%s short form: %s != %s" % (ci.name, a, b),
+                                    "with fewer words than parameters the action sets %s=`%s` and %s=`%s`; the builder takes the plain family "
+                                    "only when they are equal, so the short command line builds another formula than the documented one"
+                                    % (a, src(br[a]), b, src(br[b])), br[b]))
+    R.floor("ACTION-DEFAULT", n, 2)
